@@ -22,8 +22,8 @@ fn main() {
         let k: u32 = p[1].parse().unwrap();
         let v = u64::from_str_radix(p[2].trim_start_matches("0x"), 16).unwrap();
         match p[0] {
-            "f" => F.with(|m| { m.borrow_mut().insert(k, v); }),
-            "u" => U.with(|m| { m.borrow_mut().insert(k, v); }),
+            "f" => { F.with(|m| { m.borrow_mut().insert(k, v); }); alea::shim_load('f', k, v); }
+            "u" => { U.with(|m| { m.borrow_mut().insert(k, v); }); alea::shim_load('u', k, v); }
             _ => {}
         }
     }
@@ -44,7 +44,11 @@ fn main() {
             } else if let Some(a) = e.downcast_ref::<AssumeFailed>() {
                 println!("RESULT: ASSUME {}", a.0);
             } else if let Some(s) = e.downcast_ref::<String>() {
-                println!("RESULT: PANIC {}", s);
+                if s.starts_with("VH-ASSUME") {
+                    println!("RESULT: ASSUME {}", s);
+                } else {
+                    println!("RESULT: PANIC {}", s);
+                }
             } else if let Some(s) = e.downcast_ref::<&str>() {
                 println!("RESULT: PANIC {}", s);
             } else {
